@@ -721,6 +721,9 @@ func raceSignature(log string) string {
 
 // harnessPanic reports whether the first non-runtime frame of the panic is harness code.
 func harnessPanic(log string) bool {
+	if strings.Contains(log, "lal terminated the process itself") {
+		return false // raised by the exit seam on lal's behalf (nazalog Fatal / Assert -> os.Exit)
+	}
 	i := strings.Index(log, "goroutine ")
 	if i < 0 {
 		return false
